@@ -26,6 +26,11 @@ TOK_POOL = [{"kind": "ws", "return_set": True}, {"kind": "ws", "return_set": Fal
             {"kind": "qgram", "q": 3, "padding": False, "return_set": False},
             {"kind": "delim", "delims": [","], "return_set": False}]
 QGRAM_TOKS = [2, 3]
+# long-lived filter objects shared by several steps: (type, pooled tokenizer, measure, threshold)
+FILTER_POOL = [("position", 0, "COSINE", 0.5), ("prefix", 2, "JACCARD", 0.6),
+               ("size", 0, "DICE", 0.7), ("suffix", 0, "JACCARD", 0.5),
+               ("overlap", 1, "OVERLAP", 2), ("position", 3, "EDIT_DISTANCE", 1),
+               ("prefix", 3, "EDIT_DISTANCE", 2)]
 SET_MEASURES = ["JACCARD", "COSINE", "DICE", "OVERLAP_COEFFICIENT", "OVERLAP"]
 WORDS = ["ab", "ba", "abb", "a", "b,a", "bab"]
 
@@ -74,6 +79,8 @@ class World(object):
         self.toks = [mk_tok(c) for c in TOK_POOL]
         self.tok_snap = [canon.tok_state(t) for t in self.toks]
         self.default_snap = canon.tok_state(default_tokenizer())
+        self.filters = [self.make_pool_filter(spec, self.toks[spec[1]], ssj)
+                        for spec in FILTER_POOL]
         self.uses = collections.Counter()
         self.flips = collections.Counter()
 
@@ -89,8 +96,15 @@ class World(object):
         return pd.DataFrame({"_id": list(range(len(pairs))), "l_id": [p[0] for p in pairs],
                              "r_id": [p[1] for p in pairs]}, index=pd.Index(idx))
 
+    @staticmethod
+    def make_pool_filter(spec, tok, api):
+        ft, _, measure, thr = spec
+        if ft == "overlap":
+            return api.OverlapFilter(tok, thr)
+        return getattr(api, FILTER_NAMES[ft])(tok, measure, thr)
+
     # ---------------------------------------------------------------- one step
-    def execute(self, step, tabs, cand, tok, api=ssj):
+    def execute(self, step, tabs, cand, tok, api=ssj, pooled=None):
         ctx = self.ctx
         JOINS = dict((m, getattr(api, n)) for m, n in JOIN_NAMES.items())
         FILTERS = dict((m, getattr(api, n)) for m, n in FILTER_NAMES.items())
@@ -114,6 +128,21 @@ class World(object):
                 return ctx.lib(JOINS[m], L, R, "id", "id", "val", "val", tok, step["threshold"],
                                step["op"], step["allow_empty"], step["allow_missing"], ["num"],
                                None, "l_", "r_", True, nj, False)
+        if k == "pooled_filter":
+            spec = FILTER_POOL[step["f"]]
+            f = pooled[step["f"]] if pooled is not None else \
+                ctx.lib(self.make_pool_filter, spec, tok, api)
+            if f is None:
+                return None
+            with calls.backend(nj):
+                if step["call"] == "tables":
+                    return ctx.lib(f.filter_tables, L, R, "id", "id", "val", "val", None,
+                                   ["cnt"], n_jobs=nj, show_progress=False)
+                if step["call"] == "candset":
+                    return ctx.lib(f.filter_candset, cand, "l_id", "r_id", tabs[0], tabs[2],
+                                   "id", "id", "val", "val", n_jobs=nj, show_progress=False)
+            return [ctx.lib(f.filter_pair, a, b) for a in L["val"].tolist()
+                    for b in R["val"].tolist()]
         if k in ("filter_tables", "filter_candset", "filter_pair"):
             ft = step["ftype"]
             if ft == "overlap":
@@ -165,7 +194,7 @@ class World(object):
         ctx = self.ctx
         ti = step.get("tok")
         tok = None if ti is None else self.toks[ti]
-        res = self.execute(step, self.tabs, self.cand, tok)
+        res = self.execute(step, self.tabs, self.cand, tok, pooled=self.filters)
         desc = "step %s" % canon.dumps(step)
         # (1) inputs untouched
         for i, t in enumerate(self.tabs):
@@ -214,6 +243,8 @@ class World(object):
     def call_name(step):
         if step["kind"] == "join":
             return step["measure"].lower() + "_join"
+        if step["kind"] == "pooled_filter":
+            return "shared-%s-object.filter_%s" % (FILTER_POOL[step["f"]][0], step["call"])
         if step["kind"].startswith("filter"):
             return step["ftype"] + "." + step["kind"]
         return step["kind"]
@@ -255,7 +286,8 @@ def make_machine(ctx, tally, state, deadline, tier):
             self.do(lambda: self.world.step(step))
 
         @rule(measure=st.sampled_from(SET_MEASURES), l=st.integers(0, 1), r=st.integers(2, 3),
-              tok=st.integers(0, len(TOK_POOL) - 1), thr=st.sampled_from([0.3, 0.5, 0.8, 1.0]),
+              tok=st.sampled_from([1, 1, 1, 3, 3, 0, 2, 4]),
+              thr=st.sampled_from([0.3, 0.5, 0.8, 1.0]),
               op=st.sampled_from([">=", ">", "="]), ae=st.booleans(), am=st.booleans(),
               nj=st.sampled_from([1, 1, 2, 3]))
         def set_join(self, measure, l, r, tok, thr, op, ae, am, nj):
@@ -265,7 +297,7 @@ def make_machine(ctx, tally, state, deadline, tier):
                       "n_jobs": nj})
 
         @rule(l=st.integers(0, 1), r=st.integers(2, 3),
-              tok=st.sampled_from([None, None] + QGRAM_TOKS), thr=st.integers(0, 3),
+              tok=st.sampled_from([None, 2, 2, 3]), thr=st.integers(0, 3),
               op=st.sampled_from(["<=", "<", "="]), am=st.booleans(),
               nj=st.sampled_from([1, 1, 2]))
         def ed_join(self, l, r, tok, thr, op, am, nj):
@@ -291,6 +323,13 @@ def make_machine(ctx, tally, state, deadline, tier):
             self.run({"kind": kind, "ftype": ftype, "measure": measure, "l": l, "r": r,
                       "tok": tok, "threshold": t, "allow_empty": ae, "allow_missing": am,
                       "n_jobs": nj})
+
+        @rule(f=st.integers(0, len(FILTER_POOL) - 1),
+              call=st.sampled_from(["tables", "tables", "candset", "pair"]),
+              l=st.integers(0, 1), r=st.integers(2, 3), nj=st.sampled_from([1, 1, 2]))
+        def pooled_filter(self, f, call, l, r, nj):
+            self.run({"kind": "pooled_filter", "f": f, "call": call, "l": l, "r": r,
+                      "tok": FILTER_POOL[f][1], "n_jobs": nj})
 
         @rule(fn=st.sampled_from(["jaccard", "dice", "common_count", "lev", "lambda"]),
               tok=st.integers(0, len(TOK_POOL) - 1), thr=st.sampled_from([0, 0.5, 1, 2]),
@@ -331,10 +370,10 @@ class Stateful(Component):
     rule = ">=3 calls share one tokenizer object and >=1 of them had to flip its mode"
 
     def examples(self, tier):
-        return 40 if tier == "quick" else 300
+        return 50 if tier == "quick" else 300
 
     def steps(self, tier):
-        return 12 if tier == "quick" else 30
+        return 14 if tier == "quick" else 30
 
     def budget_s(self, tier):
         return 200 if tier == "quick" else 2400
